@@ -130,11 +130,6 @@ Definition wns_of (from : list source) (joins : list (jhow * source * jcond)) (s
   negb (Nat.eqb (List.length joins) 0) || Nat.ltb 1 (List.length from)
   || (match from with SrcQ y :: _ => is_builder y | _ => false end)
   || foreign_of srcs wheres.
-Definition srcs_of (from : list source) (joins : list (jhow * source * jcond)) : list tref :=
-  let (fnames, n1) := name_from sub_count 0 from in
-  let (jnames, _) := name_joins (base_tables from) n1 joins in
-  (src_refs from fnames ++ src_refs (map (fun j => snd (fst j)) joins) jnames)%list.
-
 Record segs := mkSegs {
   s_with : string; s_select : string; s_from : string; s_joins : string; s_where : string;
   s_group : string; s_having : string; s_order : string; s_page : string; s_fu : string }.
@@ -152,7 +147,7 @@ Definition sel_text (kin : kctx) (walias subquery : bool) (ali : option string)
     (orderbys : list (item * option order)) (l o : option Z) (fu : bool) : res string :=
   let k := defaults c kin in
   let (fnames, n1) := name_from sub_count 0 from in
-  let (jnames, _) := name_joins (base_tables from) n1 joins in
+  let (jnames, _) := name_joins (base_tables from) (src_names from fnames ++ map fst withs) n1 joins in
   let srcs := (src_refs from fnames ++ src_refs (map (fun j => snd (fst j)) joins) jnames)%list in
   let wns := wns_of from joins srcs wheres in
   let base := kc k in
@@ -176,7 +171,7 @@ Definition sel_text (kin : kctx) (walias subquery : bool) (ali : option string)
                 ++ (match js with [] => "" | _ => " " ++ join " " js end)
                 ++ wh ++ gb ++ hv ++ ob ++ page_tail c KSelect l o ++ (if fu then " FOR UPDATE" else "") in
     let body := paren subquery body in
-    Ok (if walias then fmt_alias body ali (q base) (qalias_quote c) (askw base) else body)
+    Ok (if walias then fmt_alias body ali (q base) (k_qaq k) (askw base) else body)
   end.
 
 (* the segments, computed one by one in the same order *)
@@ -185,7 +180,7 @@ Definition sel_segs (kin : kctx) (c : cls) (withs : list (string * query)) (dist
     (orderbys : list (item * option order)) (l o : option Z) (fu : bool) : res segs :=
   let k := defaults c kin in
   let (fnames, n1) := name_from sub_count 0 from in
-  let (jnames, _) := name_joins (base_tables from) n1 joins in
+  let (jnames, _) := name_joins (base_tables from) (src_names from fnames ++ map fst withs) n1 joins in
   let srcs := (src_refs from fnames ++ src_refs (map (fun j => snd (fst j)) joins) jnames)%list in
   let wns := wns_of from joins srcs wheres in
   let base := kc k in
@@ -210,7 +205,7 @@ Definition sel_segs (kin : kctx) (c : cls) (withs : list (string * query)) (dist
 Definition finish (kin : kctx) (c : cls) (walias subquery : bool) (ali : option string) (body : string) : string :=
   let base := kc (defaults c kin) in
   let body := paren subquery body in
-  if walias then fmt_alias body ali (q base) (qalias_quote c) (askw base) else body.
+  if walias then fmt_alias body ali (q base) (k_qaq (defaults c kin)) (askw base) else body.
 
 (* ------------------------------------------------------------------------------------------- *)
 (* Part 2: token view of a flat SQLite SELECT and its reader                                     *)
@@ -417,7 +412,7 @@ Definition flat_of (x : query) : option flat :=
   match x with
   | QSel CSQLLite [] d sels from joins wh hv gb ob l o false None =>
       let (fnames, n1) := name_from sub_count 0 from in
-      let (jnames, _) := name_joins (base_tables from) n1 joins in
+      let (jnames, _) := name_joins (base_tables from) (src_names from fnames ++ map fst (@nil (string * query))) n1 joins in
       let jsrc := map (fun j => snd (fst j)) joins in
       let srcs := (src_refs from fnames ++ src_refs jsrc jnames)%list in
       let wns := wns_of from joins srcs wh in
